@@ -1,37 +1,26 @@
 #!/usr/bin/env python3
-"""tools/try_seed.py <PID> <worktree> [<seed name>]
-Confirms an independently written breaking change and runs the property's check against it:
- 1. in the worktree: demo.py exits 0 without the patch and non-zero with it; the baseline suite passes with the patch
- 2. applies patch.diff to /repo, runs ./check <PID> (quick), reverts /repo (git checkout -- .)
- 3. stores patch.diff, demo.py, notes.md and meta.json under /verif/seeded/<name>/
-"""
+"""tools/try_benign.py <PID> <worktree> [name]: confirm a behaviour-preserving change (demo exits 0 with and without it, suite
+passes), apply it to /repo, run ./check <PID> (must exit 0), revert, store under /verif/benign/<name>/."""
 import json, os, shutil, subprocess, sys
 VERIF = os.path.dirname(os.path.dirname(os.path.abspath(__file__)))
 pid, wt = sys.argv[1], sys.argv[2]
-name = sys.argv[3] if len(sys.argv) > 3 else pid
+name = sys.argv[3] if len(sys.argv) > 3 else pid + "b"
 seed = os.path.join(wt, "seed")
 PY = "/venv/bin/python"
 def run(cmd, cwd, timeout=1800):
     r = subprocess.run(cmd, shell=True, cwd=cwd, stdout=subprocess.PIPE, stderr=subprocess.STDOUT, universal_newlines=True, timeout=timeout)
     return r.returncode, r.stdout
-meta = {"property": pid, "name": name}
-# state: patch applied in the worktree
-rc, out = run("git diff --stat -- miasm | tail -1", wt); meta["diffstat"] = out.strip()
+meta = {"property": pid, "name": name, "kind": "behaviour-preserving"}
 # bring the worktree to exactly "HEAD + patch.diff" (git stash is shared between worktrees: never used here)
 run("git checkout -- miasm && git apply seed/patch.diff", wt)
 rc_with, out_with = run("%s seed/demo.py" % PY, wt)
 run("git apply -R seed/patch.diff", wt)
 rc_without, out_without = run("%s seed/demo.py" % PY, wt)
 run("git apply seed/patch.diff", wt)
-meta["demo_exit_with_patch"] = rc_with
-meta["demo_exit_without_patch"] = rc_without
 rc_t, out_t = run("%s -m pytest -q -p no:cacheprovider --timeout=900 test/arch/mep 2>&1 | tail -1" % PY, wt)
-meta["suite_with_patch"] = out_t.strip()
+meta.update({"demo_exit_with_patch": rc_with, "demo_exit_without_patch": rc_without, "suite_with_patch": out_t.strip()})
 print("demo without patch: exit %d; with patch: exit %d; suite: %s" % (rc_without, rc_with, out_t.strip()))
-print("  with-patch demo tail:", out_with.strip().splitlines()[-1][:200] if out_with.strip() else "")
-ok = rc_without == 0 and rc_with != 0 and "280 passed" in out_t
-meta["confirmed"] = ok
-# run the check against /repo with the patch applied
+meta["confirmed"] = rc_with == 0 and rc_without == 0 and "280 passed" in out_t
 patch = os.path.join(seed, "patch.diff")
 rc_a, out_a = run("git -C /repo apply --check %s" % patch, VERIF)
 if rc_a != 0:
@@ -40,25 +29,23 @@ else:
     meta["applies"] = True
     try:
         run("git -C /repo apply %s" % patch, VERIF)
-        env_out = "/dev/shm/seed_out_%s" % name
+        env_out = "/dev/shm/benign_out_%s" % name
         os.makedirs(env_out, exist_ok=True)
         rc_c, out_c = run("VERIF_OUT=%s ./check %s --tier quick" % (env_out, pid), VERIF)
         shutil.rmtree(env_out, ignore_errors=True)
     finally:
         run("git -C /repo checkout -- .", VERIF)
     meta["check_exit"] = rc_c
-    viol = [l for l in out_c.splitlines() if l.startswith("VIOLATION") or l.startswith("  rule") or l.startswith("  at ")]
-    meta["check_report"] = viol[:12]
-    print("check exit %d" % rc_c)
-    for l in viol[:9]:
+    rep = [l for l in out_c.splitlines() if l.startswith("VIOLATION") or l.startswith("  rule") or l.startswith("  at ") or l.startswith("ANALYSIS-ERROR")]
+    meta["check_report"] = rep[:12]
+    print("check exit %d %s" % (rc_c, "(silent, as required)" if rc_c == 0 else "<<< FALSE ALARM / ANALYSIS ERROR"))
+    for l in rep[:9]:
         print("   ", l[:220])
-dst = os.path.join(VERIF, "seeded", name)
+dst = os.path.join(VERIF, "benign", name)
 os.makedirs(dst, exist_ok=True)
 for f in ("patch.diff", "demo.py", "notes.md"):
     if os.path.exists(os.path.join(seed, f)):
         shutil.copy(os.path.join(seed, f), os.path.join(dst, f))
-meta["what_it_needs"] = "see notes.md"
-meta["ran"] = ["demo.py with and without the patch in a scratch worktree", "pytest test/arch/mep with the patch", "./check %s --tier quick with the patch applied to /repo, then reverted" % pid]
 json.dump(meta, open(os.path.join(dst, "meta.json"), "w"), indent=1)
 st = subprocess.run("git -C /repo status --short | head -3", shell=True, stdout=subprocess.PIPE, universal_newlines=True).stdout
 print("repo clean:", not st.strip())
